@@ -93,6 +93,23 @@ class _Canon(ast.NodeTransformer):
 
     visit_ListComp = visit_SetComp = visit_GeneratorExp = visit_DictComp = _comp
 
+    _STR_METHODS = {'strip', 'lstrip', 'rstrip', 'lower', 'upper', 'casefold', 'title', 'replace', 'join', 'format'}
+
+    def visit_Compare(self, node):
+        self.generic_visit(node)
+        # s.strip() == ''  ->  not s.strip()   (the left side is a str: emptiness and falsity coincide)
+        if len(node.ops) == 1 and isinstance(node.ops[0], (ast.Eq, ast.NotEq)):
+            a, b = node.left, node.comparators[0]
+            if isinstance(a, ast.Constant) and a.value == '':
+                a, b = b, a
+            if isinstance(b, ast.Constant) and b.value == '' and (
+                    isinstance(a, ast.JoinedStr)
+                    or (isinstance(a, ast.Call) and isinstance(a.func, ast.Attribute) and a.func.attr in self._STR_METHODS)
+                    or (isinstance(a, ast.Call) and isinstance(a.func, ast.Name) and a.func.id == 'str')):
+                neg = ast.UnaryOp(op=ast.Not(), operand=a)
+                return neg if isinstance(node.ops[0], ast.Eq) else ast.UnaryOp(op=ast.Not(), operand=neg)
+        return node
+
     def visit_Lambda(self, node):
         sc = {}
         for a in node.args.posonlyargs + node.args.args + node.args.kwonlyargs:
@@ -602,11 +619,40 @@ class Summarizer:
                 cur.guards.append(self.guard(self.val(c, cur)))
         if isinstance(comp, ast.DictComp):
             tgt = ast.Subscript(value=clone(sym), slice=self.val(comp.key, cur), ctx=ast.Store())
-            self.emit_store(tgt, self.val(comp.value, cur), cur, node)
+            self.emit_store(tgt, self._merged_display(comp.value, cur, node) or self.val(comp.value, cur), cur, node)
         else:
             meth = 'add' if isinstance(comp, ast.SetComp) else 'append'
-            call = ast.Call(func=ast.Attribute(value=clone(sym), attr=meth, ctx=ast.Load()), args=[self.val(comp.elt, cur)], keywords=[])
+            call = ast.Call(func=ast.Attribute(value=clone(sym), attr=meth, ctx=ast.Load()),
+                            args=[self._merged_display(comp.elt, cur, node) or self.val(comp.elt, cur)], keywords=[])
             self.emit('call', canon(call), cur, node, lhs=sym, rhs=call.args[0], op=meth)
+
+    def _merged_display(self, e, st, node):
+        """`{..} | ({k: v} if c else {})` (a record with an optional key) is the record built in a fresh cell followed by the
+        conditional store of the optional key - the form an explicit loop gives: -> the cell symbol, or None"""
+        if not (isinstance(e, ast.BinOp) and isinstance(e.op, ast.BitOr) and isinstance(e.left, ast.Dict)
+                and all(isinstance(k, ast.Constant) for k in e.left.keys)):
+            return None
+        r = e.right
+        alts = []
+        if isinstance(r, ast.Dict):
+            alts = [(None, True, r)]
+        elif isinstance(r, ast.IfExp) and isinstance(r.body, ast.Dict) and isinstance(r.orelse, ast.Dict):
+            alts = [(r.test, True, r.body), (r.test, False, r.orelse)]
+        else:
+            return None
+        if any(k is None or not isinstance(k, ast.Constant) for _, _, d in alts for k in d.keys):
+            return None
+        self._nmerge = getattr(self, '_nmerge', 0) + 1
+        init = self.val(e.left, st)
+        cell = self.new_cell(f'<merged display {self._nmerge}>', canon(init), st, node, init=init)
+        for test, pol, d in alts:
+            cur = st.fork()
+            if test is not None:
+                tv = self.val(test, st)
+                cur.guards.append(self.guard(tv if pol else neg_ast(tv)))
+            for k, v in zip(d.keys, d.values):
+                self.emit_store(ast.Subscript(value=clone(cell), slice=clone(k), ctx=ast.Store()), self.val(v, st), cur, node)
+        return cell
 
     _EMPTY = {ast.ListComp: '[]', ast.GeneratorExp: '[]', ast.SetComp: 'set()', ast.DictComp: '{}'}
 
@@ -746,6 +792,14 @@ class Summarizer:
                 self.cells.discard(name)
             return [s3]
         s2 = st.fork()
+        if name in self.cells and isinstance(value_node, ast.Call) and isinstance(value_node.func, ast.Name) \
+                and value_node.func.id in ('set', 'list') and len(value_node.args) == 1 and not value_node.keywords \
+                and isinstance(value_node.args[0], (ast.GeneratorExp, ast.ListComp, ast.SetComp)) \
+                and not (value_node.func.id == 'list' and isinstance(value_node.args[0], ast.SetComp)):
+            # x = set(f(t) for t in it), later updated in place  ==  x = {f(t) for t in it}
+            inner = value_node.args[0]
+            value_node = ast.copy_location((ast.SetComp if value_node.func.id == 'set' else ast.ListComp)(
+                elt=inner.elt, generators=inner.generators), value_node)
         if isinstance(value_node, (ast.ListComp, ast.SetComp, ast.DictComp)):
             # x = [f(t) for t in it if c]  ==  x = []; for t in it: if c: x.append(f(t))
             self.cells.add(name)
